@@ -135,6 +135,8 @@ func runHistory(ops []resOp, proto string, capN int) ([]resObs, error) {
 				lo, hi = 32, len(t)-32
 			case "mac":
 				lo, hi = len(t)-32, len(t)
+			case "state_tail": // counted backwards from the byte in front of the MAC
+				lo, hi = 32, len(t)-32
 			}
 			switch op.Region {
 			case "truncate":
@@ -145,6 +147,13 @@ func runHistory(ops []resOp, proto string, capN int) ([]resObs, error) {
 				pos := lo + (hi-lo)/2
 				if op.Byte >= 0 && lo+op.Byte < hi {
 					pos = lo + op.Byte
+				}
+				if op.Region == "state_tail" {
+					b := op.Byte
+					if b < 0 {
+						b = 0
+					}
+					pos = hi - 1 - b
 				}
 				t[pos] ^= 1
 			}
